@@ -276,6 +276,43 @@ func runManifest(c *Case, dir string, keep bool, out *Outcome) *Violation {
 			return &Violation{Props: []string{"C17"}, Rule: "truncated-manifest-partial", Msg: fmt.Sprintf("MANIFEST truncated at byte %d of %d: %s", k, len(full), d)}
 		}
 		out.Stats.Checks++
+		// the truncated MANIFEST is taken into use again (production open, which cuts
+		// the torn tail off), one more change set is appended, and the file is
+		// replayed by the next open: state after the cut plus the new table
+		if k%2 == 0 {
+			d2 := filepath.Join(dir, "cutuse")
+			os.RemoveAll(d2)
+			os.MkdirAll(d2, 0o755)
+			if err := os.WriteFile(filepath.Join(d2, "MANIFEST"), full[:k], 0o644); err != nil {
+				out.Harness = err.Error()
+				return nil
+			}
+			mf, _, err := badger.VerifOpenManifest(d2, 1<<30, opt)
+			if err != nil {
+				return &Violation{Props: []string{"C17", "C09"}, Rule: "truncated-manifest-error", Msg: fmt.Sprintf("MANIFEST truncated at byte %d of %d: open failed: %v", k, len(full), err)}
+			}
+			const probeID = 987654321
+			err = mf.AddChanges([]*pb.ManifestChange{{Id: probeID, Op: pb.ManifestChange_CREATE, Level: 1}}, opt)
+			cerr := mf.Close()
+			if err != nil || cerr != nil {
+				return &Violation{Props: []string{"C17"}, Rule: "append-after-truncation-error", Msg: fmt.Sprintf("MANIFEST truncated at byte %d: appending a change set after the recovering open failed: %v / close: %v", k, err, cerr)}
+			}
+			mf2, m2, err := badger.VerifOpenManifest(d2, 1<<30, opt)
+			if err != nil {
+				return &Violation{Props: []string{"C17", "C09"}, Rule: "reopen-after-truncation-error", Msg: fmt.Sprintf("MANIFEST truncated at byte %d of %d, opened, one change set appended, closed: the next open failed: %v", k, len(full), err)}
+			}
+			mf2.Close()
+			want := map[uint64]mfTable{}
+			for id, tm := range stateAt(k) {
+				want[id] = tm
+			}
+			want[probeID] = mfTable{Level: 1}
+			if d := sameTables(m2.Tables, want); d != "" {
+				return &Violation{Props: []string{"C17", "C09"}, Rule: "reopen-after-truncation-differs", Msg: fmt.Sprintf("MANIFEST truncated at byte %d of %d, opened, one change set appended, closed: the next open shows %s", k, len(full), d)}
+			}
+			out.Stats.Probes["fault:manifest_truncated_then_appended"]++
+			out.Stats.Checks++
+		}
 	}
 	// (3) a flipped bit anywhere in the last change sets is an error or leaves a
 	// complete-set prefix state, never something else
